@@ -28,7 +28,10 @@ def generate(G):
     # quick core
     for at in (False, True):
         for bt in (False, True):
-            mm("2x3x2_%s" % tn(at, bt), 2, 3, 2, at, bt, None, "quick", dom="D2" if (at or bt) else "D4")
+            # rows, inner and columns all different, so that a mixed-up extent cannot go unnoticed
+            mm("2x3x1_%s" % tn(at, bt), 2, 3, 1, at, bt, None, "quick")
+            mm("2x3x2_%s" % tn(at, bt), 2, 3, 2, at, bt, None, "thorough", dom="D2" if (at or bt) else "D4")
+            mm("1x2x3_%s" % tn(at, bt), 1, 2, 3, at, bt, None, "thorough")
     mm("1x2x3_nn_c3", 1, 2, 3, False, False, [3], "quick")
     mm("2x2x2_nt_c2x2", 2, 2, 2, False, True, [2, 2], "quick")
     mm("2x2x2_nt_c1x2", 2, 2, 2, False, True, [1, 2], "quick")
@@ -39,6 +42,12 @@ def generate(G):
     mm("1x2x1_nn_l1_l2", 1, 2, 1, False, False, None, "quick", lead_a=[1], lead_b=[2])       # fixed by ff2b503
     mm("1x2x1_nn_l2x1_l2x3", 1, 2, 1, False, False, None, "quick", lead_a=[2, 1], lead_b=[2, 3], dom="D2")
     mm("1x1x2_tn_l2x2_c2", 1, 1, 2, True, False, [2], "thorough", lead_a=[2, 2], lead_b=[2, 2], dom="D2")
+    # operands of different rank that both carry leading dimensions (alignment of the shorter one's)
+    mm("1x2x1_nn_l1x2_l2", 1, 2, 1, False, False, None, "quick", lead_a=[1, 2], lead_b=[2])
+    mm("1x1x2_nn_l2_l1x2", 1, 1, 2, False, False, None, "thorough", lead_a=[2], lead_b=[1, 2])
+    mm("1x1x1_nn_l2x1_l3", 1, 1, 1, False, False, None, "thorough", lead_a=[2, 1], lead_b=[3])
+    mm("1x1x1_nn_l1x1_l2", 1, 1, 1, False, False, None, "thorough", lead_a=[1, 1], lead_b=[2])
+    mm("1x1x1_nt_l3_l1x3_c1", 1, 1, 1, False, True, [1], "thorough", lead_a=[3], lead_b=[1, 3])
     # thorough: sizes x transposes, additive forms, leading patterns
     for (m, k, n) in [(1, 1, 1), (1, 2, 1), (2, 1, 2), (1, 3, 2), (3, 2, 1), (2, 2, 3), (3, 1, 3), (2, 3, 3)]:
         for at in (False, True):
